@@ -13,6 +13,12 @@ Driver for C20.
   model needed whose loss the implementation never computed), `margin` (smallest distance of an
   early-stopping comparison from its threshold), `order_ok`.
 * `{"op":"sort","ids":["0.3","0.1",…]}` → `perm` (positions of the gathered list in sorted order)
+* `{"op":"sort"|"predict", …, "members":[m…]}` (optional: the position in the `predictors` list of the member each
+  gathered job ran, same order as `ids`) → additionally `hs_ok`: the ids increase strictly along the `predictors`
+  list (hypothesis `hs` of `C20_order`, = `submitJobs_increasing` of the model of the submission) and `by_member`
+  = `predictionsOf` must then list the members 0,1,2,…
+* `{"op":"online_candidates","S":S,"jobs":[{"idx":[…],"vals":[rat…]},…]}` → `cands`: per job `onlineCandidate S idx vals`
+  (a list of `rat | null` = masked), or `null` when the model says the assignment raises (`C20_online_candidate`)
 * `{"op":"topk_history","k":k,"calls":[{"losses":[rat…],"order":[…]},…],"outs":[{"indices":[…],"weights":[rat…]}|null,…]}`
   (a history of `select()` calls on ONE `TopKSelector(k)` object; `outs` = what the real object returned per
   call, `null` where it raised / returned something that is not a list of naturals) → `steps` (per call:
@@ -84,6 +90,20 @@ def jCall (j : Json) : Except String TopKCall := do
 def jOutOpt (j : Json) : Except String (Option (List Nat × List Rat)) := do
   if j.isNull then return none
   return some (← jList jNat (← field j "indices"), ← jList jRat (← field j "weights"))
+
+/-- ids increase strictly along the `predictors` list: `members[i]` = list position of the member whose job has
+`nums[i]`; sorting the jobs by member position must give strictly increasing ids -/
+def idsIncreaseAlongMembers (nums members : List Nat) : Bool :=
+  let byMember := (sortById (members.zip nums)).map (·.2)
+  (byMember.zip byMember.tail).all (fun (a, b) => decide (a < b))
+
+def jMembers (j : Json) : Except String (Option (List Nat)) := do
+  let m := fieldD j "members" Json.null
+  if m.isNull then return none
+  return some (← jList jNat m)
+
+def jJobReport (j : Json) : Except String (List Nat × List Rat) := do
+  return (← jList jNat (← field j "idx"), ← jList jRat (← field j "vals"))
 
 def handle (j : Json) : Except String Json := do
   let op ← (← field j "op").getStr?
@@ -168,12 +188,15 @@ def handle (j : Json) : Except String Json := do
     let nums := ids.map idNum
     if nums.any Option.isNone then
       return Json.mkObj [("ok", true), ("bad_id", true), ("loc", Json.arr #[])]
+    let hsOk := match ← jMembers j with
+      | some ms => idsIncreaseAlongMembers (nums.filterMap id) ms
+      | none => true
     let jobs : List (Nat × List Rat) := (nums.filterMap id).zip vals
     let sorted := (sortById jobs).map (·.2)
     let m := (vals.head?.map List.length).getD 0
     let locs := (List.range m).map (fun c =>
       (DH.Aggregate.meanAgg ws (sorted.map (fun v => v[c]?))).loc)
-    return Json.mkObj [("ok", true), ("bad_id", false),
+    return Json.mkObj [("ok", true), ("bad_id", false), ("hs_ok", hsOk),
       ("loc", .arr (locs.map (fun l => match l with | some q => ofRat q | none => Json.null)).toArray)]
   | "sort" =>
     let ids ← jList jStr (← field j "ids")
@@ -181,7 +204,23 @@ def handle (j : Json) : Except String Json := do
     if nums.any Option.isNone then
       return Json.mkObj [("ok", true), ("bad_id", true), ("perm", ofNats [])]
     let jobs : List (Nat × Nat) := (nums.filterMap id).zipIdx
-    return Json.mkObj [("ok", true), ("bad_id", false), ("perm", ofNats ((sortById jobs).map (·.2)))]
+    let members ← jMembers j
+    let hsOk := match members with
+      | some ms => idsIncreaseAlongMembers (nums.filterMap id) ms
+      | none => true
+    let byMember := match members with
+      | some ms => predictionsOf ((nums.filterMap id).zip ms)
+      | none => []
+    return Json.mkObj [("ok", true), ("bad_id", false), ("perm", ofNats ((sortById jobs).map (·.2))),
+      ("hs_ok", hsOk), ("by_member", ofNats byMember)]
+  | "online_candidates" =>
+    let S ← jNat (← field j "S")
+    let jobs ← jList jJobReport (← field j "jobs")
+    let cands := jobs.map (fun (idx, vals) =>
+      match onlineCandidate S idx vals with
+      | some cand => Json.arr (cand.map (fun c => match c with | some q => ofRat q | none => Json.null)).toArray
+      | none => Json.null)
+    return Json.mkObj [("ok", true), ("cands", .arr cands.toArray)]
   | _ => throw s!"unknown op {op}"
 
 def main : IO Unit := serveFn handle
